@@ -135,6 +135,49 @@ def run(ctx):
         ctx.case('c20 validate {} {} {}'.format(mat(S), mat(Lx), mat(Lz)), v, nontrivial=True)
         if bc.n_k_d != (n, k, None):
             ctx.monitor_fail('BasicCode n_k_d default wrong', {'S': mat(S), 'nkd': bc.n_k_d})
+    # BasicCode histories: codes built one after another in this process that differ in exactly one of stabilizers /
+    # logical xs / logical zs (same n_k_d, same label) — the cached matrix properties of one object must never be
+    # served to another (BasicCode keys its lru_cache'd properties on __eq__/__hash__)
+    def bc_verdict(bc):
+        try:
+            bc.validate(); return 'ok'
+        except QecsimError as ex:
+            msg = str(ex)
+            return ('QecsimError:stabilizers' if 'mutually' in msg else 'QecsimError:stablogicals'
+                    if 'commute with logicals' in msg else 'QecsimError:logicals' if 'as expected' in msg else
+                    'QecsimError:?')
+    ps = lambda M: tuple(pt.bsf_to_pauli(np.array(r)) for r in M)  # noqa: E731
+    for _ in range(ctx.scale(40, 400)):
+        k = rng.choice([1, 1, 2]); n = rng.randint(k + 1, 6)
+        S, Lx, Lz = gens.random_valid_code(rng, n, k)
+        variants = [(S, Lx, Lz, 'base')]
+        for which in ('S', 'Lx', 'Lz'):
+            for _r in range(2):
+                S2, X2, Z2 = [r[:] for r in S], [r[:] for r in Lx], [r[:] for r in Lz]
+                tgt = {'S': S2, 'Lx': X2, 'Lz': Z2}[which]
+                tgt[rng.randrange(len(tgt))] = gens.rand_bits(rng, 2 * n)
+                variants.append((S2, X2, Z2, 'only-' + which))
+        rng.shuffle(variants)
+        nkd, label = (n, k, rng.choice([None, 3])), rng.choice([None, 'same-label'])
+        for (S2, X2, Z2, kind) in variants + variants[:2]:
+            bc = BasicCode(ps(S2), ps(X2), ps(Z2), n_k_d=nkd, label=label)
+            v = bc_verdict(bc)
+            ctx.count('basic-history', kind)
+            ctx.case('c20 validate {} {} {}'.format(mat(S2), mat(X2), mat(Z2)), v, nontrivial=True,
+                     meta={'basic_history': kind})
+            got = (bc.stabilizers.tolist(), bc.logical_xs.tolist(), bc.logical_zs.tolist(), bc.logicals.tolist())
+            if got != (S2, X2, Z2, X2 + Z2):
+                ctx.monitor_fail('BasicCode matrices differ from the operators it was built from (after other codes '
+                                 'were built in the same process)',
+                                 {'S': mat(S2), 'Lx': mat(X2), 'Lz': mat(Z2), 'stabilizers': mat(got[0]),
+                                  'logical_xs': mat(got[1]), 'logical_zs': mat(got[2]), 'logicals': mat(got[3]),
+                                  'history': [kk for (_, _, _, kk) in variants]})
+            spec = spec_validate(S2, X2, Z2)
+            if spec is not None and (spec == 'ok') != (v == 'ok'):
+                ctx.monitor_fail('BasicCode.validate verdict differs from the code conditions (history of codes '
+                                 'differing in one operator set)',
+                                 {'S': mat(S2), 'Lx': mat(X2), 'Lz': mat(Z2), 'validate': v, 'conditions': spec,
+                                  'history': [kk for (_, _, _, kk) in variants]})
     # DecodeResult over all 16 argument subsets
     for sg, lg, rg, cg in itertools.product([False, True], repeat=4):
         kw = {}
